@@ -228,6 +228,13 @@ type World struct {
 	stranger [][]byte
 	uniq  uint64
 	state string
+	targets [][]byte // binding targets used by outputs on the chain (20 or 22 bytes)
+	gameHeights []uint64 // heights of blocks with staking / binding transactions (outputs or inputs), OP_RETURN outputs
+	rewardHeights []uint64 // heights of blocks whose coinbase carries a standard payload and pays staking rewards
+	proposalHeights []uint64 // heights of blocks with a punishment proposal and a ban list
+	lag *lagInfo // set by scenario lagging-reorg
+	lagDirty bool // a wallet was removed or imported by a request since: the recorded rows may have been rebuilt
+	stopped bool // scenario stopped: WalletManager.Stop has run
 }
 
 func scratchRoot() string {
@@ -257,7 +264,7 @@ func newWorld(r *rng.R) (*World, error) {
 }
 
 func (wd *World) open() error {
-	w, err := sim.OpenWallet(wd.n, wd.dir, func(db mwdb.DB) mwdb.DB {
+	w, err := sim.OpenWalletSync(wd.n, wd.dir, func(db mwdb.DB) mwdb.DB {
 		wd.g = &gate{DB: db}
 		return wd.g
 	}, true)
@@ -276,7 +283,7 @@ func (wd *World) open() error {
 // openHeld opens the manager but freezes its background worker goroutine before it has created
 // its task queue (the first thing worker() does is a read transaction).
 func (wd *World) openHeld() error {
-	w, err := sim.OpenWallet(wd.n, wd.dir, func(db mwdb.DB) mwdb.DB {
+	w, err := sim.OpenWalletSync(wd.n, wd.dir, func(db mwdb.DB) mwdb.DB {
 		wd.g = &gate{DB: db}
 		return wd.g
 	}, false)
@@ -322,7 +329,9 @@ func (wd *World) close() {
 	done := make(chan struct{})
 	go func() {
 		defer func() { recover() }()
-		wd.w.Stop()
+		if !wd.stopped {
+			wd.w.Stop()
+		}
 		close(done)
 	}()
 	select {
@@ -432,7 +441,11 @@ func (wd *World) ownerOf(script []byte) (*wallet, *addrInfo, int, uint64) {
 
 // block attaches a block (coinbase paying cb, then txs) and lets the wallet process it.
 func (wd *World) block(cb []sim.Out, txs []*wire.MsgTx, notify bool) (*massutil.Block, error) {
-	b := wd.n.MakeBlock(wd.n.Tip(), cb, txs)
+	return wd.attach(wd.n.MakeBlock(wd.n.Tip(), cb, txs), notify)
+}
+
+// attach makes b the node's best block, records its coins, and (notify) lets the wallet process it.
+func (wd *World) attach(b *massutil.Block, notify bool) (*massutil.Block, error) {
 	if err := wd.n.Attach(b); err != nil {
 		return nil, err
 	}
@@ -519,6 +532,12 @@ func target22(r *rng.R) []byte {
 	return append(r.Bytes(20), byte(r.Intn(2)), byte(24+r.Intn(16)))
 }
 
+// tgt records a binding target that is about to be used on the chain
+func (wd *World) tgt(t []byte) []byte {
+	wd.targets = append(wd.targets, t)
+	return t
+}
+
 // build creates wallets A and B and the base history. Returns with A selected.
 func (wd *World) build() error {
 	r := wd.r
@@ -566,8 +585,8 @@ func (wd *World) build() error {
 	fan := wd.spend(cs[0], []sim.Out{
 		pay(a0, 10e8), pay(a1, 5e8),
 		{Script: stakingScript(a2.sh, sim.Cur.MinFrozenPeriod+uint64(r.Intn(3))), Value: 2048e8 / 100},
-		{Script: bindingScript(a0.sh, target20(r)), Value: 1e8},
-		{Script: bindingScript(a1.sh, target22(r)), Value: 2e8},
+		{Script: bindingScript(a0.sh, wd.tgt(target20(r))), Value: 1e8},
+		{Script: bindingScript(a1.sh, wd.tgt(target22(r))), Value: 2e8},
 		pay(b0, 3e8),
 		{Script: wd.stranger[0], Value: 1e8},
 		{Script: append([]byte{txscript.OP_RETURN, 4}, r.Bytes(4)...), Value: 0},
@@ -576,6 +595,7 @@ func (wd *World) build() error {
 	if _, err := wd.block(nil, []*wire.MsgTx{fan}, true); err != nil {
 		return err
 	}
+	wd.gameHeights = append(wd.gameHeights, wd.n.Height(), wd.n.Height()+1)
 	// spend some of them again: spent credits of A; B moves too
 	fh := fan.TxHash()
 	var txs []*wire.MsgTx
@@ -599,6 +619,9 @@ func (wd *World) build() error {
 		if js, err := wd.w.WM.ExportWallet(wl.id, wl.pass); err == nil {
 			wl.keystoreJSON = js
 		}
+	}
+	if err := wd.extend(); err != nil {
+		return err
 	}
 	if _, err := wd.w.WM.UseWallet(A.id); err != nil {
 		return err
